@@ -186,6 +186,61 @@ def va_run(events, with_audio, with_ann):
     return out
 
 
+def va_unsub_between_sessions(ck):
+    """"an unsubscribe function stops deliveries at once" - also when it is called after the session has ended: a start
+    handler still running is cancelled, so nothing of it can reach the NEXT session of the same client"""
+    import simnet
+    n = 0
+    for result in (6055, None):
+        for unsub_when in ("after-session-end", "before-session-end"):
+            net, client, conn, _stops = simnet.established(keepalive=100000.0)
+            loop = net.loop
+            futs = []
+
+            async def handle_start(conv, flags, audio, wake, futs=futs, loop=loop):
+                f = loop.create_future()
+                futs.append(f)
+                return await f
+
+            async def handle_stop(aborted):
+                pass
+
+            unsub = client.subscribe_voice_assistant(handle_start=handle_start, handle_stop=handle_stop)
+            net.send(pb.VoiceAssistantRequest(start=True, conversation_id="c"))
+            loop.run_idle()
+            if unsub_when == "before-session-end":
+                unsub()
+                loop.run_idle()
+            conn.force_disconnect()
+            loop.run_idle()
+            if unsub_when == "after-session-end":
+                unsub()
+                loop.run_idle()
+            o = simnet.spawn(loop, client.connect(login=False), "connect2")
+            loop.run_idle()
+            net.send(simnet.hello_response())
+            loop.run_idle()
+            tr2 = net.tr
+            before = len(tr2.writes)
+            for f in futs:
+                if not f.done():
+                    f.set_result(result)
+            for _ in range(4):
+                loop.run_idle()
+            stray = [t for _t, w in tr2.writes[before:] for t, _ in live.decode_plain(w) if t == PROTO_TO_MESSAGE_TYPE[pb.VoiceAssistantResponse]]
+            n += 1
+            if stray or not futs or o.cls() != "ok":
+                ck.violation(f"c17:voice-unsub-between-sessions:{unsub_when}", f"voice-assistant start handler running ({len(futs)}), unsubscribe "
+                             f"{unsub_when.replace('-', ' ')}, a new session of the same client (connect: {o.cls()}), then the handler returns {result}: "
+                             f"{len(stray)} VoiceAssistantResponse written into the new session, which never saw a request",
+                             {"unsub": unsub_when, "handler_result": result})
+            for t in asyncio.all_tasks(loop):
+                t.cancel()
+            loop.run_idle()
+            net.close()
+    return n
+
+
 def va_expected(events, aud, ann):
     """the property's voice-assistant clauses, written from its text: each message -> the matching handler once while
     subscribed; a start is answered once with the port its handler returned (error if none, nothing if cancelled by
@@ -332,6 +387,7 @@ def run(ck: Check):
             impl.append(" ".join(got))
             kinds.append("va")
             dist["voice_sequences"] += 1
+    dist["voice_unsub_between_sessions"] = va_unsub_between_sessions(ck)
     # 4. the other subscriptions: one matching callback per message, unsubscribe stops at once (spec on the implementation)
     others_checked = other_subscriptions(ck)
     outs = run_driver_parallel([lines[i::16] for i in range(16)])
